@@ -2,13 +2,14 @@
 """Blind-spot sweep (development aid, not a registered check).
 
 Generates single-token source mutants of the non-test code of rust/core/src (relational operators, && / ||, + / -, small
-integer literals, true / false, min / max, removed `.rev()`, negated `if`, deleted call / assignment statements), and for
+integer literals, true / false, min / max, removed `.rev()`, negated `if`, deleted call / assignment statements, swapped tuple fields .0/.1, min!/max!, continue/break,
+is_some/is_none, `.iter().skip(1)`, `+=`/`-=`), and for
 every mutant that still builds under the fact extractor runs ALL registered rule modules statically (tools/sweep_one.py).
 Mutants no rule reports are then put through the repository's own test suite; the ones that also keep the suite result are
 written out per function.  A function with many such survivors is a place the rules do not look at — the list is triaged by
 hand (many survivors are behaviour-preserving or outside every property), it is never turned into a verdict.
 
-  tools/sweep.py [--jobs N] [--only SUBSTR] [--no-tests] [--out FILE] [--resume FILE]
+  tools/sweep.py [--jobs N] [--only SUBSTR] [--no-tests] [--out FILE] [--resume FILE] [--ops op1,op2]
 
 Scratch copies live under /tmp/sw and are removed at the end.
 """
@@ -77,6 +78,22 @@ def mutants_of(path, rel):
             add("minmax", m.start(), m.end(), ".max(" if m.group(1) == "min" else ".min(")
         for m in re.finditer(r"\.rev\(\)", code):
             add("rev", m.start(), m.end(), "")
+        for m in re.finditer(r"\.(0|1)\b(?!\.\d)(?![\w(])", code):
+            if re.search(r"\d$", code[:m.start()]):
+                continue            # part of a float literal
+            add("tuple", m.start(), m.end(), ".1" if m.group(1) == "0" else ".0")
+        for m in re.finditer(r"\b(min|max)!\(", code):
+            add("minmax!", m.start(), m.end(), "max!(" if m.group(1) == "min" else "min!(")
+        for m in re.finditer(r"\b(continue|break)\b", code):
+            add("loopctl", m.start(), m.end(), "break" if m.group(1) == "continue" else "continue")
+        for m in re.finditer(r"\.(is_some|is_none)\(\)", code):
+            add("optflip", m.start(), m.end(), ".is_none()" if m.group(1) == "is_some" else ".is_some()")
+        for m in re.finditer(r"\.(iter|iter_mut)\(\)", code):
+            add("skip1", m.start(), m.end(), m.group(0) + ".skip(1)")
+        for m in re.finditer(r"(?<=\s)(\+=|-=)(?=\s)", code):
+            add("opassign", m.start(), m.end(), "-=" if m.group(1) == "+=" else "+=")
+        for m in re.finditer(r"\bas (isize|usize)\b", code):
+            pass
         m = re.match(r"^(\s*)(if|while)\s+(?!let\b)(.+?)\s*\{\s*(.*)$", code)
         if m and "else" not in code[:m.start(2)]:
             st = m.start(3)
@@ -90,8 +107,21 @@ def mutants_of(path, rel):
 
 
 def all_mutants(only=None):
-    src = os.path.join(REPO, "rust", "core", "src")
     res = []
+    wasm = os.path.join(REPO, "rust", "wasm", "src", "lib.rs")
+    if os.path.exists(wasm) and (not only or only in "wasm/src/lib.rs"):
+        res.extend(mutants_of(wasm, "wasm/src/lib.rs"))
+        # the bridge has almost no operators: also swap / drop call arguments and `cfg(lang = ..)` values
+        for i, l in non_test_lines(wasm):
+            m = re.search(r"core::(\w+)\(([^()]*(?:\([^()]*\))?[^()]*)\)", l)
+            if m and "," in m.group(2):
+                args = [a.strip() for a in re.split(r",(?![^()]*\))", m.group(2))]
+                for j in range(len(args) - 1):
+                    sw = list(args)
+                    sw[j], sw[j + 1] = sw[j + 1], sw[j]
+                    res.append({"file": "wasm/src/lib.rs", "line": i, "fn": m.group(1), "op": "argswap", "old": l,
+                                "new": l[:m.start(2)] + ", ".join(sw) + l[m.end(2):]})
+    src = os.path.join(REPO, "rust", "core", "src")
     for dp, dn, fns in os.walk(src):
         for f in sorted(fns):
             if not f.endswith(".rs"):
@@ -194,6 +224,10 @@ def main(argv):
             outp = argv[i + 1]
     run_tests = "--no-tests" not in argv
     ms = all_mutants(only)
+    for i, a in enumerate(argv):
+        if a == "--ops":
+            ops = set(argv[i + 1].split(","))
+            ms = [m for m in ms if m["op"] in ops]
     done = []
     for i, a in enumerate(argv):
         if a == "--resume":
